@@ -42,6 +42,16 @@ for d in sorted(glob.glob(os.path.join(ROOT, "seeded", "*"))):
     def cl(s): return re.sub(r"\s+", " ", str(s)).replace("|", "/")[:160]
     out.append("| %s | %s | %s | %s | %s |" % (os.path.basename(d), m.get("property", ""), cl(m.get("title") or m.get("what_it_breaks", "")),
                cl(m.get("needs_to_manifest", "")), cl(m.get("detected_by", {}).get("result", "")) + (" — " + cl(m["strengthened"]) if m.get("strengthened") else "")))
+out.append("\n### 10.5 Trusted base and assumptions per property (from checks/<ID>.json; every evidence file repeats its share)\n")
+out.append("Common to all: the Lean 4.33.0 kernel (`lake build`; `lake env leanchecker` in the thorough tier); axioms `propext`, `Classical.choice`, `Quot.sound` only (audited with `#print axioms` on every obligation on every run; no `sorry`, `native_decide`, `bv_decide`, `implemented_by`, `unsafe`, own axioms); the `check` script; the per-property go/ast translator (tie A) and Go harness + compiled Lean driver (tie B), which cross-check each other.\n")
+for c in man["checks"]:
+    pid = c["property_id"]
+    cfg = json.load(open(os.path.join(ROOT, "checks", pid + ".json")))
+    out.append("* **%s** — level: %s. %s" % (pid, c["level_claimed"]["category"], re.sub(r"\s+", " ", cfg.get("level_note", ""))[:900]))
+    for a in cfg.get("assumptions", [])[:8]:
+        out.append("  * assumes: " + re.sub(r"\s+", " ", a)[:400])
+    for a in cfg.get("trusted_base", [])[:6]:
+        out.append("  * " + re.sub(r"\s+", " ", a)[:400])
 txt = "\n".join(out) + "\n"
 p = os.path.join(ROOT, "DESIGN.md")
 s = open(p).read()
